@@ -7,7 +7,11 @@
   simply playing with settled volume / fade / route parameters and no spatial data, main and send volumes
   settled — plus a static environment (`EnvOps.Static`: no clock, modulator or listener moves).
   Sounds and effects are arbitrary components that are chunk-homomorphic (`Comps.ChunkHom`: rendering
-  `a + b` frames = rendering `a` then `b`, the per-frame state advance every kira sound and effect has).
+  `a + b` frames = rendering `a` then `b`, the per-frame state advance every kira sound and effect has) —
+  or, in the `_on` forms, chunk-homomorphic relative to state invariants preserved by `process` and for slices
+  of at most the internal buffer size (`Comps.ChunkHomOn`), which is what kira's REAL static sound and eight
+  effects are proved to satisfy: `Props/C11_real.lean` (imported below) instantiates the `_on` forms with the
+  whole-system model `Model/System.lean` (`C11_real_scene_partition_invariant`).
 -/
 import KiraModel.Proofs.SimLemmas
 import KiraModel.Props.C11_real
